@@ -496,6 +496,8 @@ def binop(I, node, op, l, r):
             out.tags["deg"] = {}
         I.emit("corner_table", node, result=out, lits=(0.0, 1.0), repeat=n_cols, complete=bool(same))
         return out
+    if isinstance(op, (ast.BitAnd, ast.BitOr)) and not (l.known and r.known):
+        out.tags["bool_combined"] = ("and" if isinstance(op, ast.BitAnd) else "or", l, r)      # verdict narrowed / widened by a second predicate
     if isinstance(op, ast.BitOr) and l.tag("pred") is not None and r.tag("pred") is not None and l.tag("pred")[1].term == r.tag("pred")[1].term \
             and l.tag("pred")[1].term is not None:
         out.tags["pred_union"] = (frozenset({l.tag("pred")[0], r.tag("pred")[0]}), l.tag("pred")[1])     # isfinite(x) | isposinf(x)
@@ -1270,6 +1272,11 @@ def call_builtin(I, e, name, args, kws):
                              "nonempty": _nonempty(a0)})
         return out
     if name == "zip":
+        # zip(it, it) over ONE one-shot iterator pairs items (0,1), (2,3), … and drops an unpaired last one — not neighbours, not all pairs
+        for i_ in range(len(args)):
+            for j_ in range(i_ + 1, len(args)):
+                if args[i_] is args[j_] and (args[i_].tag("oneshot") or args[i_].tag("kind") in ("zip", "map", "enumerate", "generator")):
+                    I.emit("iterator_reuse", e, kind="iter() object zipped with itself", made_in=(), loops=())
         elems = [I.iter_elem(a, None) for a in args]
         starred = [a for a in args if a.tag("starred")]
         out = mk(args, tags={"kind": "zip", "nonempty": all(_nonempty(a) for a in args)})
@@ -1297,13 +1304,15 @@ def call_builtin(I, e, name, args, kws):
             obj = I.new_obj("list", e)
             return Val(refs={obj.id}, tags={"kind": "list", "elem": None, "n_items": 0}, items=[] if name == "tuple" else None)
         if a0.items is not None:
-            return Val(items=list(a0.items), tags={"kind": "tuple" if name == "tuple" else "list",
+            return Val(items=list(a0.items), tags={"kind": "tuple" if name == "tuple" else "list", **({"oneshot": True} if name == "iter" else {}),
                                                    "elem": join_all(a0.items) if a0.items else None},
                        data=a0.flat().data, shp=a0.flat().shp, ctrl=a0.flat().ctrl, refs=a0.flat().refs,
                        term=mk_term(name, a0.term))
         el = I.iter_elem(a0, None)
         out = mk([a0], tags={"kind": "list", "elem": el, "nonempty": _nonempty(a0), "listof": a0},
                  term=mk_term(name, a0.term))
+        if name == "iter":
+            out.tags["oneshot"] = True
         return out
     if name == "dict":
         obj = I.new_obj("dict", e)
